@@ -1,5 +1,7 @@
 import MorfuseModel.Common.Mem
 import MorfuseModel.Common.Ring
+import MorfuseModel.Common.Mem2
 import MorfuseModel.SafePtr.Model
 import MorfuseModel.SafePtr.Lemmas
 import MorfuseModel.Props.C12
+import MorfuseModel.BlockAlloc.Model
